@@ -29,6 +29,15 @@ def solve(ob, timeout_ms=None, second_solver=False):
     s.set("timeout", timeout_ms)
     for h in ob.hyps:
         s.add(h)
+    if ob.kind == "cover":
+        # reachability obligation: hyps and goal must be satisfiable together (vacuity guard)
+        s.add(ob.goal)
+        r = s.check()
+        ob.solver = "z3"
+        ob.verdict = "proved" if r == z3.sat else ("refuted" if r == z3.unsat else "unknown")
+        ob.reason = None if r != z3.unknown else s.reason_unknown()
+        ob.seconds = time.time() - t0
+        return ob
     s.add(z3.Not(ob.goal))
     r = s.check()
     ob.solver = "z3"
